@@ -1047,9 +1047,9 @@ namespace Pistache::Http::Experimental
 
         if (conn == nullptr)
         {
-            return Async::Promise<Response>([this, resource = std::move(resource),
-                                             request](Async::Resolver& resolve,
-                                                      Async::Rejection& reject) {
+            auto res = Async::Promise<Response>([this, resource = std::move(resource),
+                                                 request](Async::Resolver& resolve,
+                                                          Async::Rejection& reject) {
                 Guard guard(queuesLock);
 
                 auto data = std::make_shared<Connection::RequestData>(
@@ -1058,6 +1058,12 @@ namespace Pistache::Http::Experimental
                 if (!queue.enqueue(data))
                     data->reject(std::runtime_error("Queue is full"));
             });
+
+            // A connection may have been released between the failed pick and the
+            // enqueue, and its completion found the queue still empty: look again,
+            // otherwise this request waits for a completion that already happened
+            processRequestQueue();
+            return res;
         }
         else
         {
